@@ -463,8 +463,19 @@ def new_dict(it, cls: str = "dict", items: list | None = None) -> z3.ExprRef:
     return o
 
 
+def check_key(it, k) -> None:
+    """Dict keys are compared as values (identity for objects).  An object key whose class defines its own __eq__ / __hash__
+    (two distinct objects may then be the *same* key) is outside this model: the path is left undecided, never proved."""
+    if it.kind(k) == "ref":
+        c = it.st.class_id_of(k)
+        info = it.ct.info.get(c) if c is not None else None
+        if info is not None and (info.find_method("__eq__") is not None or info.find_method("__hash__") is not None):
+            raise Unsupported(f"dict key of class {info.name}, which defines its own __eq__/__hash__ (key equality is not identity)")
+
+
 def dict_set(it, d, k, v) -> None:
     st = it.st
+    check_key(it, k)
     p = dict_parts(it, d)
     st.instantiate_at(k)
     if st.decide(z3.Select(p["has"], k), "dict.set:present"):
@@ -650,6 +661,7 @@ def contains(it, container, item) -> z3.ExprRef:
         return str_contains(V.sid(container), V.sid(item))          # substring test (uninterpreted; see str.replace)
     cn = _cname(it, container)
     if cn in ("dict", "OrderedDict", "mappingproxy"):
+        check_key(it, item)
         return z3.Select(st.get(container, "$dhas"), item)
     sv = seq_view(it, container)
     if sv is not None:
@@ -1070,6 +1082,7 @@ def _dict_get(it, lv, ca, node):
     d = lv.bound
     k = ca.pos[0]
     default = ca.pos[1] if len(ca.pos) > 1 else V.VNone
+    check_key(it, k)
     p = dict_parts(it, d)
     st.instantiate_at(k)
     c = st.contract
@@ -1719,8 +1732,15 @@ def _await_tg_exit(it, aw, idx, node):
     allow = c is None or not hasattr(c, "cancel_during_taskgroup_exit") or c.cancel_during_taskgroup_exit(it)
     alts.append(("cancelled-while-waiting", bool(allow)))
     alts.append(("cancelled-while-waiting+member-failed", bool(allow)))
+    # a request made *before* the exit started (e.g. cancel() as the last statement of the body) is delivered at this first
+    # suspension point (T-FUT): CancelledError is raised here although the counter of requests does not grow any more
+    tsk = c.current_task(it) if (allow and c is not None and hasattr(c, "current_task")) else None
+    pending = (V.ival(st.get(tsk, "$cancelling")) >= 1) if (tsk is not None and it.kind(tsk) == "ref") else False
+    alts.append(("earlier-request-delivered-while-waiting", pending))
     j = st.fork(f"await#{idx}:taskgroup-exit", alts)
-    if j >= 3 and c is not None and hasattr(c, "current_task"):
+    if j == 5:
+        raise PyRaise(it.new_exc("CancelledError"), "a cancellation requested before the exit is delivered while the group waits")
+    if j in (3, 4) and c is not None and hasattr(c, "current_task"):
         t = c.current_task(it)
         if it.kind(t) == "ref":             # an external cancel() is counted until somebody calls uncancel()
             st.put(t, "$cancelling", V.VInt(V.ival(st.get(t, "$cancelling")) + 1))
